@@ -3,7 +3,7 @@
    check_case: the model computes what the implementation (and the library) did.
    spec_case : what the implementation did satisfies the specification, judged on the
                observations alone (no model function on the judged side). *)
-From Sdns Require Export Common.Base Gen.C05 C05.Model.
+From Sdns Require Export Common.Base Gen.C05 C05.Model C05.Edns.
 Open Scope N_scope.
 
 (* what dns.Msg.Unpack did on the packet: error, or the number of decoded questions and
@@ -22,7 +22,12 @@ Inductive case :=
   (* two-server differential step: digests of the components of the two abstract replies
      (presence, header, question, answer, authority, additional, OPT) and of what the stub
      resolver saw, first from the wire-path server, then from the decoded-path server *)
-| CaseDiff (w m : list N).
+| CaseDiff (w m : list N)
+  (* edns.ResponseWriter: WireReady's reserve and the OPT WriteWire appended to a body with this
+     WireInfo EDE, and the OPT WriteMsg left on a message whose own OPT carried [down]; [srvc] is
+     the server cookie dnsutil.GenerateServerCookie gives for the writer's client half *)
+| CaseEdns (w : ewriter) (srvc : list N) (ede : option eopt) (down : option (list eopt))
+           (reserve : N) (obs_wire obs_msg : option optrec).
 
 Fixpoint bytes_eqb (a b : list N) : bool :=
   match a, b with
@@ -53,6 +58,37 @@ Definition verdict_eqb (a b : verdict) : bool :=
   | _, _ => false
   end.
 
+Definition eopt_eqb (a b : eopt) : bool := (eo_code a =? eo_code b) && bytes_eqb (eo_data a) (eo_data b).
+Fixpoint eopts_eqb (a b : list eopt) : bool :=
+  match a, b with
+  | [], [] => true
+  | x :: xs, y :: ys => eopt_eqb x y && eopts_eqb xs ys
+  | _, _ => false
+  end.
+Definition optrec_eqb (a b : option optrec) : bool :=
+  match a, b with
+  | None, None => true
+  | Some x, Some y => (or_size x =? or_size y) && Bool.eqb (or_do x) (or_do y) && eopts_eqb (or_options x) (or_options y)
+  | _, _ => false
+  end.
+(* same record up to the order of the options *)
+Definition count_opt (o : eopt) (l : list eopt) : nat := length (filter (eopt_eqb o) l).
+Definition optrec_sameb (a b : option optrec) : bool :=
+  match a, b with
+  | None, None => true
+  | Some x, Some y =>
+      (or_size x =? or_size y) && Bool.eqb (or_do x) (or_do y) &&
+      (length (or_options x) =? length (or_options y))%nat &&
+      forallb (fun o => (count_opt o (or_options x) =? count_opt o (or_options y))%nat) (or_options x)
+  | _, _ => false
+  end.
+Definition down_eqb (a b : option (list eopt)) : bool :=
+  match a, b with
+  | None, None => true
+  | Some x, Some y => eopts_eqb x y
+  | _, _ => false
+  end.
+
 Definition check_case (c : case) : bool :=
   match c with
   | CasePW raw pw lib =>
@@ -71,6 +107,9 @@ Definition check_case (c : case) : bool :=
   | CaseReplyHdr stored opcode rd cd wf mf =>
       (wire_hit_flags stored opcode rd cd =? wf) && (msg_hit_flags stored opcode rd cd =? mf)
   | CaseDiff w m => (length w =? 8)%nat && (length m =? 8)%nat   (* no model: shape only *)
+  | CaseEdns w srvc ede down reserve ow om =>
+      optrec_eqb (wire_opt (fun _ => srvc) w ede) ow && optrec_eqb (msg_opt (fun _ => srvc) w down) om
+      && (wire_opt_len w =? reserve)
   end.
 
 (* the specification, on observations only:
@@ -93,4 +132,9 @@ Definition spec_case (c : case) : bool :=
   | CaseIngress _ _ _ => true
   | CaseReplyHdr _ opcode _ _ wf mf => negb (opcode =? 0) || (wf =? mf)
   | CaseDiff w m => bytes_eqb w m
+  | CaseEdns w _ ede down reserve ow om =>
+      (* the byte-built OPT is the message OPT whenever the message is what ToMsg hands over;
+         the reserve is the encoded length of the record without the EDE *)
+      (negb (down_eqb down (tomsg_down ede)) || optrec_sameb ow om)
+      && (optrec_len ow =? reserve + (if ew_noedns w then 0 else ede_reserve ede))
   end.
